@@ -229,9 +229,14 @@ func ParseMessage(reader *bufio.Reader) (*Message, error) {
 	if contentLength < 0 {
 		return nil, errors.New("invalid negative Content-Length field")
 	}
-	msg.body = make([]byte, contentLength)
-	if _, err = io.ReadFull(reader, msg.body); err != nil {
+	// read the body as it arrives instead of allocating the declared length up front: the
+	// Content-Length of a tiny packet may claim gigabytes (or more than make can allocate)
+	msg.body, err = io.ReadAll(io.LimitReader(reader, int64(contentLength)))
+	if err != nil {
 		return nil, err
+	}
+	if len(msg.body) != contentLength {
+		return nil, io.ErrUnexpectedEOF
 	}
 	return msg, nil
 }
